@@ -607,6 +607,13 @@ func c15Child(ctx *runCtx, spec string) {
 	close(jobs)
 	wg.Wait()
 
+	// one pipeline with many different commands over all partitions
+	mixRounds := 6
+	if ctx.tier == "thorough" {
+		mixRounds = 30
+	}
+	c15PipelineMix(ctx, env, replicas, ctx.seed*100+int64(replicas), mixRounds, 66)
+
 	// differential comparison for what the model does not judge
 	for id, byPath := range outs {
 		var kinds []string
@@ -637,6 +644,7 @@ func normTTL(s string) string {
 
 func c15Run(ctx *runCtx) int {
 	ctx.rep.Rule = "exhaustive grid: {Put x {-,NX,XX} x {-,EX,PX,EXAT,PXAT}, Expire (s and ms form), GetPut, Incr, Decr, IncrByFloat, Lock/Unlock/Lease with and without timeout, Lock on a busy key, multi-key Delete of 1/2/8 keys over 1/2/3 owners with and without missing keys} x prior states x paths {EO,EN,CC,RO,RN,PL} x ReplicaCount; " +
+		"plus pipelines of 66 different commands (11 kinds x prior absent/present, unique keys, values and deltas, shuffled) whose every future and stored entry is compared with the model; " +
 		"each execution uses a fresh key; outcome = (error class, returned value/count, stored value and expiry class read white-box on the owner); distinct_nontrivial = distinct (replicas, case, path) triples executed with a verdict"
 	ctx.rep.Assumptions = []string{
 		"expiry classes use a 3 ms tolerance around [call+d, return+d]; EXAT/PXAT are compared exactly",
